@@ -35,6 +35,7 @@ pub enum K {
     EditCommit, // macro: update then commit
     Diverge, // macro: two replicas edit and commit concurrently, then one learns the other's work
     Trickle, // macro: every item a replica lacks is delivered one file at a time, refresh after each
+    Echo, // macro: a replica that holds another's packs (but not its blocks) commits the same content, then a third learns its blocks only
     Burst, // macro: a long run of successive small edits of the same objects (revision indices >= 10, >= 100)
     SameEdit,
     N,
@@ -93,6 +94,7 @@ pub fn profile_for(prop: &str, variant: u64) -> Profile {
     match prop {
         "C01" => {
             p.name = "convergence";
+            w[K::Echo as usize] = 2;
             w[K::Trickle as usize] = 6;
             w[K::SameEdit as usize] = 2;
             w[K::Partition as usize] = 2;
@@ -104,6 +106,7 @@ pub fn profile_for(prop: &str, variant: u64) -> Profile {
         "C02" => {
             p.name = "causal-delivery";
             p.replicas = (2, 4);
+            w[K::Echo as usize] = 8;
             w[K::Trickle as usize] = 30;
             w[K::Diverge as usize] = 16;
             w[K::EditCommit as usize] = 24;
@@ -176,6 +179,12 @@ pub fn profile_for(prop: &str, variant: u64) -> Profile {
             p.name = "write-faults";
             p.replicas = (1, 3);
             p.write_faults = true;
+            // interrupted operations leave orphan packs and partial copies behind; what happens
+            // *after* them (unstage, other edits, partial delivery to peers) is part of the property
+            w[K::Trickle as usize] = 10;
+            w[K::Echo as usize] = 4;
+            w[K::Unstage as usize] = 6;
+            w[K::RoundTrip as usize] = 3;
             w[K::FailWrites as usize] = 8;
             w[K::DiskFull as usize] = 2;
             w[K::Restart as usize] = 4;
@@ -280,7 +289,12 @@ pub struct Gen {
     /// reads the generator itself performed on replicas while building the current batch; they
     /// touch the library's caches, so they are recorded as `Op::Read` ahead of the batch and
     /// replayed (the runner only accounts for them during generation)
-    pub peeked: Vec<usize>,
+    pub peeked: Vec<(usize, u8)>,
+    /// a look that did not return (index into `peeked`, what happened): the runner reports it exactly
+    /// as the replayed `Op::Read` would
+    pub peek_crash: Option<(usize, crate::api::Crash)>,
+    /// second half of the Echo macro, emitted by the next call: (author, source of the foreign packs, learner)
+    pub follow: Option<(usize, usize, usize)>,
 }
 
 /// Per-run configuration drawn from the run seed (swarm).
@@ -334,10 +348,19 @@ pub fn make_cfg(prop: &str, run_seed: u64) -> (RunCfg, Gen) {
     // short runs dominate
     let (lo, hi) = prof.len;
     let target_len = if rng.chance(2, 3) { rng.range(lo, lo + (hi - lo) / 3) } else { rng.range(lo, hi) };
-    (cfg, Gen { rng, prof, w, target_len, emitted: 0, ended: false, prelude_done: false, peeked: vec![] })
+    (cfg, Gen { rng, prof, w, target_len, emitted: 0, ended: false, prelude_done: false, peeked: vec![], peek_crash: None, follow: None })
 }
 
 fn commit_info(rng: &mut Rng, cfg: &DocCfg) -> Option<Value> {
+    // edge shapes: present-but-empty, empty nested containers, null members
+    if rng.chance(1, 12) {
+        return Some(match rng.below(4) {
+            0 => json!({}),
+            1 => json!({"a": {}, "b": []}),
+            2 => json!({"": null}),
+            _ => json!({"k": [[], {}, null, ""]}),
+        });
+    }
     match rng.below(5) {
         0 => None,
         1 => Some(json!({"author": "a", "n": rng.below(1000)})),
@@ -372,11 +395,21 @@ pub fn strip_generated_ids(v: &mut Value) {
 
 impl Gen {
     fn next_doc(&mut self, w: &World, r: usize) -> Value {
+        let n = if self.prof.long_chains { 1 } else { self.rng.range(1, 3) };
+        self.doc_of(w, r, n)
+    }
+
+    /// The document replica `r` currently shows (identifiers it generated removed), after `n` edits.
+    fn doc_of(&mut self, w: &World, r: usize, n: usize) -> Value {
         let cfg = w.cfg.doc.clone();
         // base: what the user currently sees, else what they submitted last, else a new document
         let m = w.replicas[r].live.as_ref().unwrap();
-        self.peeked.push(r);
-        let cur = crate::api::guard(|| m.read(None)).ok().and_then(|x| x.ok()).map(Value::Object);
+        self.peeked.push((r, 0));
+        let looked = crate::api::guard(|| m.read(None));
+        if let Err(c) = &looked {
+            self.peek_crash.get_or_insert((self.peeked.len() - 1, c.clone()));
+        }
+        let cur = looked.ok().and_then(|x| x.ok()).map(Value::Object);
         let mut base = match (cur, &w.replicas[r].model_doc) {
             (Some(mut c), _) => {
                 strip_generated_ids(&mut c);
@@ -387,26 +420,31 @@ impl Gen {
         };
         // a document whose flattened arrays contain nulls (dangling references) is not well-formed input
         sanitize(&mut base);
-        let n = if self.prof.long_chains { 1 } else { self.rng.range(1, 3) };
         for _ in 0..n {
             docgen::mutate(&mut self.rng, &cfg, &mut base);
         }
         base
     }
 
-    fn staging(&self, w: &World, r: usize) -> bool {
+    fn staging(&mut self, w: &World, r: usize) -> bool {
         let m = w.replicas[r].live.as_ref().unwrap();
-        crate::api::guard(|| m.has_staging()).unwrap_or(false)
+        self.peeked.push((r, 1));
+        let looked = crate::api::guard(|| m.has_staging());
+        if let Err(c) = &looked {
+            self.peek_crash.get_or_insert((self.peeked.len() - 1, c.clone()));
+        }
+        looked.unwrap_or(false)
     }
 
     /// Next batch of concrete ops (empty when the run is over) and the number of leading
     /// `Op::Read`s the generator has already performed itself.
     pub fn next(&mut self, w: &World) -> (Vec<Op>, usize) {
         self.peeked.clear();
+        self.peek_crash = None;
         let batch = self.next_inner(w);
-        let pre: Vec<Op> = self.peeked.iter().map(|r| Op::Read { r: *r }).collect();
+        let pre: Vec<Op> = self.peeked.iter().map(|(r, what)| Op::Read { r: *r, what: *what }).collect();
         let n = pre.len();
-        if batch.is_empty() {
+        if batch.is_empty() && self.peek_crash.is_none() {
             return (vec![], 0);
         }
         (pre.into_iter().chain(batch).collect(), n)
@@ -440,6 +478,29 @@ impl Gen {
             }
             return vec![];
         }
+        if let Some((a, src, t)) = self.follow.take() {
+            if !w.replicas[t].time_travel && !self.staging(w, t) {
+                let foreign = w.replicas[src].disk.keys();
+                let mine = w.replicas[a].disk.keys();
+                let have = w.replicas[t].disk.keys();
+                let mut lacked: Vec<String> = mine.difference(&have).cloned().collect();
+                let idx_of = |k: &String| -> u64 { if k.ends_with(".delta") { k.split('-').next().and_then(|i| i.parse().ok()).unwrap_or(0) } else { u64::MAX } };
+                let mut wanted: Vec<String> = lacked.iter().filter(|k| !(k.ends_with(".pack") && foreign.contains(*k))).cloned().collect();
+                wanted.sort_by_key(|k| idx_of(k));
+                let mut v = vec![];
+                for k in wanted {
+                    let pos = lacked.iter().position(|x| *x == k).unwrap();
+                    lacked.remove(pos);
+                    v.push(Op::Send { from: a, to: t, sel: pos as u32, delay: 0, dup: false, drop: false });
+                    if self.rng.chance(1, 3) {
+                        v.push(Op::Refresh { r: t });
+                    }
+                }
+                v.push(Op::Refresh { r: t });
+                self.emitted += v.len();
+                return v;
+            }
+        }
         let r = self.rng.below(n);
         // a time-travelled replica comes back before doing anything else, most of the time
         if w.replicas[r].time_travel && self.rng.chance(4, 5) {
@@ -450,7 +511,12 @@ impl Gen {
         let mut k = self.rng.weighted(&self.w);
         if self.w[K::Resolve as usize] > 0 && !w.replicas[r].time_travel && self.rng.chance(1, 3) {
             let m = w.replicas[r].live.as_ref().unwrap();
-            if crate::api::guard(|| !m.in_conflict().is_empty()).unwrap_or(false) {
+            self.peeked.push((r, 2));
+            let looked = crate::api::guard(|| !m.in_conflict().is_empty());
+            if let Err(c) = &looked {
+                self.peek_crash.get_or_insert((self.peeked.len() - 1, c.clone()));
+            }
+            if looked.unwrap_or(false) {
                 k = K::Resolve as usize;
             }
         }
@@ -509,7 +575,7 @@ impl Gen {
             x if x == K::Restart as usize => vec![Op::Restart { r }],
             x if x == K::FailWrites as usize => vec![Op::FailWrites { r, nth: self.rng.range(1, 3) as u32, repeat: if self.rng.chance(1, 4) { self.rng.range(2, 3) as u32 } else { 1 } }],
             x if x == K::DiskFull as usize => vec![Op::DiskFull { r, on: self.rng.chance(1, 2) }],
-            x if x == K::Read as usize => vec![Op::Read { r }],
+            x if x == K::Read as usize => vec![Op::Read { r, what: 0 }],
             x if x == K::Diverge as usize => {
                 if n < 2 || w.replicas[r].time_travel || w.replicas[other].time_travel {
                     vec![Op::Reload { r }]
@@ -557,6 +623,39 @@ impl Gen {
                         if self.rng.chance(5, 6) {
                             v.push(Op::Refresh { r });
                         }
+                    }
+                    v
+                }
+            }
+            x if x == K::Echo as usize => {
+                if n < 2 || w.replicas[r].time_travel {
+                    vec![Op::Refresh { r }]
+                } else {
+                    let src = w.replicas[other].disk.keys();
+                    let have = w.replicas[r].disk.keys();
+                    let mut lacked: Vec<String> = src.difference(&have).cloned().collect();
+                    let mut v = vec![];
+                    if self.staging(w, r) {
+                        v.push(if self.rng.chance(1, 2) { Op::Commit { r, info: None } } else { Op::Unstage { r } });
+                    }
+                    // packs only: the objects become known to r, the blocks that name them do not
+                    let packs: Vec<String> = lacked.iter().filter(|k| k.ends_with(".pack")).cloned().collect();
+                    for k in packs.into_iter().take(4) {
+                        let pos = lacked.iter().position(|x| *x == k).unwrap();
+                        lacked.remove(pos);
+                        v.push(Op::Send { from: other, to: r, sel: pos as u32, delay: 0, dup: false, drop: false });
+                    }
+                    v.push(Op::Refresh { r });
+                    // r now submits what `other` shows (same content => same object digests)
+                    let edits = self.rng.below(2);
+                    let doc = self.doc_of(w, other, edits);
+                    v.push(Op::Update { r, doc, twice: false });
+                    v.push(Op::Commit { r, info: commit_info(&mut self.rng, &cfg) });
+                    if n >= 3 {
+                        // second half (next call, when r's store is known): a third replica learns r's
+                        // blocks and r's own packs, never the foreign packs
+                        let t = (0..n).find(|x| *x != r && *x != other).unwrap();
+                        self.follow = Some((r, other, t));
                     }
                     v
                 }
